@@ -3,6 +3,7 @@ C03W — the floor functions preserve the generalised invariant `G E N`, part 1:
 `acceptPart`.
 -/
 import SimProc.Proofs.C03WPrim3
+import SimProc.Proofs.C03XBatcher
 import SimProc.Proofs.FloorSt
 import SimProc.Proofs.Topo
 
@@ -10,79 +11,155 @@ namespace SimProc
 namespace C03W
 open World FloorCoreL C03
 
-theorem G.schedulePassX {E N : List Nat} {w : World} (h : G (x :: E) N w) :
-    G E N (w.schedulePass x 0) :=
+theorem G.schedulePassX {E N A : List Nat} {w : World} (h : G (x :: E) N A w) :
+    G E N A (w.schedulePass x 0) :=
   h.schedulePass x 0 (Int.le_refl _)
     (fun y hy => (List.mem_cons.mp hy).imp id id)
     (fun p _ => by rw [Int.add_zero]; exact le_dueD _ _)
 
-theorem G.modDev_irrel {E N : List Nat} {w : World} (h : G E N w) (x : Nat) (f : Dev → Dev)
+theorem G.modDev_irrel {E N A : List Nat} {w : World} (h : G E N A w) (x : Nat) (f : Dev → Dev)
     (hs : stat1 (f (w.dev x)) = stat1 (w.dev x)) (hh : heldL (f (w.dev x)) = heldL (w.dev x))
-    (ha : accB (f (w.dev x)) = accB (w.dev x)) (ho : holdsD (f (w.dev x)) = holdsD (w.dev x))
+    (ha : ∀ n, accB n (f (w.dev x)) = accB n (w.dev x)) (ho : holdsD (f (w.dev x)) = holdsD (w.dev x))
     (hd : ∀ n, dueD n (f (w.dev x)) = dueD n (w.dev x))
-    (hf : (f (w.dev x)).waitingDS = (w.dev x).waitingDS) : G E N (w.modDev x f) :=
-  h.setDev_irrel x _ hs hh ha ho hd hf
+    (hf : (f (w.dev x)).waitingDS = (w.dev x).waitingDS)
+    (hfl : (f (w.dev x)).waitingRes = true → (w.dev x).waitingRes = true ∨
+      ∃ req, (f (w.dev x)).resReq = some req ∧ (req, Cb.proc x) ∈ w.rm.waiting := by
+        intro h; exact Or.inl h) :
+    G E N A (w.modDev x f) :=
+  h.setDev_irrel x _ hs hh ha ho hd hf hfl
 
-theorem G.setWaiting {E N : List Nat} {w : World} (h : G E N w) (x : Nat) (a b : Bool) :
-    G E N (w.setWaiting x a b) := by
+theorem G.setWaiting {E N A : List Nat} {w : World} (h : G E N A w) (x : Nat) (a b : Bool) :
+    G E N A (w.setWaiting x a b) := by
   unfold World.setWaiting
   dsimp only
   repeat' split
   all_goals first
     | exact h
-    | exact h.setDev_irrel x _ rfl rfl rfl rfl (fun _ => rfl) rfl
+    | exact h.setDev_irrel x _ rfl rfl (fun _ => rfl) rfl (fun _ => rfl) rfl
 
-theorem G.rmEffects {E N : List Nat} {w : World} (h : G E N w) (recs : List ResRec) (c : Bool) :
-    G E N (w.rmEffects recs c) := by
+theorem G.rmEffects {E N A : List Nat} {w : World} (h : G E N A w) (recs : List ResRec) (c : Bool) :
+    G E N A (w.rmEffects recs c) := by
   unfold World.rmEffects
-  have h1 : G E N (recs.foldl (fun w r => w.addRec (.resUpdate r.res w.now r.inUse r.cap)) w) :=
+  have h1 : G E N A (recs.foldl (fun w r => w.addRec (.resUpdate r.res w.now r.inUse r.cap)) w) :=
     G.foldl _ (fun w r hw => hw.addRec _) recs h
   dsimp only
   split
   · exact h1.schedLib _ _ Action.rmCheck _ (fun d hd => Action.noConfusion hd)
   · exact h1
 
-theorem G.withRm {E N : List Nat} {w : World} (h : G E N w) (rm : RM) : G E N { w with rm := rm } :=
-  h.of_eq rfl rfl rfl rfl rfl
+theorem G.withRm {E N A : List Nat} {w : World} (h : G E N A w) (rm : RM)
+    (hrm : rm.waiting = w.rm.waiting) : G E N A { w with rm := rm } :=
+  h.of_eq rfl rfl rfl rfl rfl (by show ∀ e ∈ w.rm.waiting, e ∈ rm.waiting; rw [hrm]; exact fun _ he => he)
+    (by show ∀ e ∈ rm.waiting, e ∈ w.rm.waiting ∨ _; rw [hrm]; exact fun _ he => Or.inl he)
 
-theorem G.releaseReserved {E N : List Nat} {w : World} (h : G E N w) (x : Nat) :
-    G E N (w.releaseReserved x) := by
+/-- a new registration of a processor -/
+theorem G.withRmReg {E N A : List Nat} {w : World} (h : G E N A w) (rm : RM) (req : Req) (x : Nat)
+    (hrm : rm.waiting = w.rm.waiting ++ [(req, Cb.proc x)]) : G E N A { w with rm := rm } :=
+  h.of_eq rfl rfl rfl rfl rfl
+    (by show ∀ e ∈ w.rm.waiting, e ∈ rm.waiting; rw [hrm]; exact fun _ he => List.mem_append_left _ he)
+    (by
+      show ∀ e ∈ rm.waiting, e ∈ w.rm.waiting ∨ _
+      rw [hrm]
+      intro e he
+      rcases List.mem_append.mp he with he | he
+      · exact Or.inl he
+      · rw [List.mem_singleton] at he; subst he; exact Or.inr ⟨x, rfl⟩)
+
+theorem release_waiting (rm : RM) (id : Nat) (part : Option Req) :
+    (rm.release id part).1.waiting = rm.waiting := by
+  rcases C10.release_cases rm id part with ⟨h, _⟩ | ⟨_, _, h, _⟩
+  · rw [h]
+  · exact h
+
+theorem add_waiting (rm : RM) (r : Nat) (amt : Int) : (rm.add r amt).1.waiting = rm.waiting := by
+  rcases C10.add_cases rm r amt with ⟨h, _⟩ | ⟨_, _, _, v, hv⟩
+  · rw [h]
+  · rw [hv]; simp
+
+/-- giving the reservation back never makes the processor more willing -/
+theorem accB_unreserve (n : Nat) (d : Dev) (h : accB n { d with reserved := none } = true) :
+    accB n d = true := by
+  have e0 : accB0 n { d with reserved := none } = accB0 n d := rfl
+  have e1 : procM { d with reserved := none } =
+      match d.kind, d.resReq with
+      | .processor, some _ => !d.waitingRes
+      | _, _ => true := rfl
+  unfold accB at h ⊢
+  rw [e0, e1, Bool.and_eq_true] at h
+  rw [Bool.and_eq_true]
+  refine ⟨h.1, ?_⟩
+  have h2 := h.2
+  unfold procM
+  cases hk : d.kind <;> simp only [hk] at h2 ⊢
+  cases hq : d.resReq with
+  | none => rfl
+  | some req =>
+    simp only [hq] at h2 ⊢
+    rw [h2]; simp
+
+/-- registering with the manager never makes the processor more willing -/
+theorem accB_register (n : Nat) (d : Dev) (h : accB n { d with waitingRes := true } = true) :
+    accB n d = true := by
+  have e0 : accB0 n { d with waitingRes := true } = accB0 n d := rfl
+  have e1 : procM { d with waitingRes := true } =
+      match d.kind, d.resReq with
+      | .processor, some _ => d.reserved.isSome || false
+      | _, _ => true := rfl
+  unfold accB at h ⊢
+  rw [e0, e1, Bool.and_eq_true] at h
+  rw [Bool.and_eq_true]
+  refine ⟨h.1, ?_⟩
+  have h2 := h.2
+  unfold procM
+  cases hk : d.kind <;> simp only [hk] at h2 ⊢
+  cases hq : d.resReq with
+  | none => rfl
+  | some req =>
+    simp only [hq, Bool.or_false] at h2 ⊢
+    rw [h2]; rfl
+
+theorem G.releaseReserved {E N A : List Nat} {w : World} (h : G E N A w) (x : Nat) :
+    G E N A (w.releaseReserved x) := by
   unfold World.releaseReserved
   split
   · exact h
   · next id _ =>
-    generalize w.rm.release id none = r
+    have hrw := release_waiting w.rm id none
+    generalize w.rm.release id none = r at hrw
     obtain ⟨rm, res, recs, chk⟩ := r
     dsimp only
-    exact ((h.withRm rm).rmEffects recs chk).modDev_irrel x _ rfl rfl rfl rfl (fun _ => rfl) rfl
+    have h1 := (h.withRm rm hrw).rmEffects recs chk
+    refine h1.modDev x _ rfl (fun q hq => h1.valid.dev x q hq) (fun _ h => h) (fun _ h => h)
+      (Or.inr (Or.inr (fun n => ?_))) (Or.inr (fun q hq => ⟨hq, Int.le_refl _, fun hh => hh⟩))
+    exact accB_unreserve n _
 
-theorem G.applyPartCb {E N : List Nat} {w : World} (h : G E N w) (x p : Nat) (c : PartCb)
-    (hc : cbPure c = true) : G E N (w.applyPartCb x p c) := by
+theorem G.applyPartCb {E N A : List Nat} {w : World} (h : G E N A w) (x p : Nat) (c : PartCb)
+    (hc : cbPure c = true) : G E N A (w.applyPartCb x p c) := by
   unfold cbPure at hc
   simp only [Bool.and_eq_true, beq_iff_eq, Option.isNone_iff_eq_none] at hc
   rw [applyPartCb_eq]
-  have h1 := h.modDev_irrel x (cbDev c) rfl rfl rfl rfl (fun _ => rfl) rfl
+  have h1 := h.modDev_irrel x (cbDev c) rfl rfl (fun _ => rfl) rfl (fun _ => rfl) rfl
   split
   · exact h1
   · refine h1.modPart p (cbPart c) (fun r => ?_)
     unfold cbPart
     simp [hc.1, hc.2]
 
-theorem G.foldl_applyPartCb {E N : List Nat} (x p : Nat) (cbs : List PartCb)
-    (hp : ∀ c ∈ cbs, cbPure c = true) {w : World} (h : G E N w) :
-    G E N (cbs.foldl (fun w c => w.applyPartCb x p c) w) := by
+theorem G.foldl_applyPartCb {E N A : List Nat} (x p : Nat) (cbs : List PartCb)
+    (hp : ∀ c ∈ cbs, cbPure c = true) {w : World} (h : G E N A w) :
+    G E N A (cbs.foldl (fun w c => w.applyPartCb x p c) w) := by
   induction cbs generalizing w with
   | nil => exact h
   | cons c cs ih =>
     exact ih (fun c' hc' => hp c' (List.mem_cons_of_mem _ hc'))
       (h.applyPartCb x p c (hp c (List.mem_cons_self ..)))
 
-theorem G.withSensors {E N : List Nat} {w : World} (h : G E N w) (s : List SensorW) :
-    G E N { w with sensors := s } :=
+theorem G.withSensors {E N A : List Nat} {w : World} (h : G E N A w) (s : List SensorW) :
+    G E N A { w with sensors := s } :=
   h.of_eq rfl rfl rfl rfl rfl
 
-theorem G.senseOutput {E N : List Nat} {w : World} (h : G E N w) (s p : Nat) :
-    G E N (w.senseOutput s p) := by
+theorem G.senseOutput {E N A : List Nat} {w : World} (h : G E N A w) (s p : Nat) :
+    G E N A (w.senseOutput s p) := by
   unfold World.senseOutput
   dsimp only
   split
@@ -92,24 +169,48 @@ theorem G.senseOutput {E N : List Nat} {w : World} (h : G E N w) (s p : Nat) :
 /-! ### accB / holdsD of updated devices -/
 
 theorem accB_false_of_output {d : Dev} {p : Nat} (h : d.output = some p)
-    (hk : isHandlerLike d.kind = true) : accB d = false := by
-  unfold accB
-  cases hkind : d.kind <;> simp_all [isHandlerLike]
+    (hk : isHandlerLike d.kind = true) (n : Nat) : accB n d = false := by
+  have : accB0 n d = false := by
+    unfold accB0
+    cases hkind : d.kind <;> simp_all [isHandlerLike]
+  unfold accB; rw [this]; rfl
 
 theorem accB_false_of_part {d : Dev} {p : Nat} (h : d.part = some p)
-    (hk : isHandlerLike d.kind = true) : accB d = false := by
-  unfold accB
-  cases hkind : d.kind <;> simp_all [isHandlerLike]
+    (hk : isHandlerLike d.kind = true) (n : Nat) : accB n d = false := by
+  have : accB0 n d = false := by
+    unfold accB0
+    cases hkind : d.kind <;> simp_all [isHandlerLike]
+  unfold accB; rw [this]; rfl
 
-theorem accB_false_of_shut {d : Dev} (h : d.shutDown = true) (hk : d.kind = .processor) :
-    accB d = false := by
-  unfold accB opn
-  simp [hk, h]
+theorem accB_false_of_shut {d : Dev} (h : d.shutDown = true) (hk : d.kind = .processor) (n : Nat) :
+    accB n d = false := by
+  have : accB0 n d = false := by
+    unfold accB0 opn
+    simp [hk, h]
+  unfold accB; rw [this]; rfl
 
 /-- for kinds that are not handler-like, `accB` only reads `blockInput` -/
-theorem accB_nonHL {d : Dev} (hk : isHandlerLike d.kind = false) : accB d = !d.blockInput := by
-  unfold accB opn
+theorem accB_nonHL {d : Dev} (hk : isHandlerLike d.kind = false) (n : Nat) :
+    accB n d = !d.blockInput := by
+  unfold accB accB0 procM opn
   cases hkind : d.kind <;> simp_all [isHandlerLike]
+
+/-- a device one of whose slots is occupied is at most as willing as any device of its kind -/
+theorem accB_le_of_occupied {d d' : Dev} (hk : d'.kind = d.kind) (hb : d'.blockInput = d.blockInput)
+    (ho : d'.part.isSome = true ∨ d'.output.isSome = true) (n : Nat) :
+    accB n d' = true → accB n d = true := by
+  intro hacc
+  by_cases hhl : isHandlerLike d.kind = true
+  · exfalso
+    rcases ho with ho | ho
+    · obtain ⟨q, hq⟩ := Option.isSome_iff_exists.mp ho
+      rw [accB_false_of_part hq (by rw [hk]; exact hhl)] at hacc; cases hacc
+    · obtain ⟨q, hq⟩ := Option.isSome_iff_exists.mp ho
+      rw [accB_false_of_output hq (by rw [hk]; exact hhl)] at hacc; cases hacc
+  · have hhl' : isHandlerLike d.kind = false := by simpa using hhl
+    rw [accB_nonHL (by rw [hk]; exact hhl')] at hacc
+    rw [accB_nonHL hhl', ← hb]
+    exact hacc
 
 theorem holdsD_nonHL {d : Dev} (hk : isHandlerLike d.kind = false) : holdsD d = none := by
   unfold holdsD
@@ -123,22 +224,8 @@ theorem down_of_st {w w' : World} (h : C02V.st w' = C02V.st w) (x : Nat) :
     (w'.dev x).down = (w.dev x).down := by
   rw [← C02V.st_down, ← C02V.st_down, h]
 
-theorem heldL_mem (d : Dev) (q : Nat) :
-    q ∈ heldL d ↔ d.part = some q ∨ d.output = some q ∨ ∃ t, (t, q) ∈ d.buf := by
-  unfold heldL
-  simp only [List.mem_append, Option.mem_toList, List.mem_map, Prod.exists, exists_eq_right]
-  constructor
-  · rintro ((h | h) | h)
-    · exact Or.inl h
-    · exact Or.inr (Or.inl h)
-    · exact Or.inr (Or.inr h)
-  · rintro (h | h | h)
-    · exact Or.inl (Or.inl h)
-    · exact Or.inl (Or.inr h)
-    · exact Or.inr h
-
-theorem G.finishCycleHandler {E N : List Nat} {w : World} (h : G E N w) (x : Nat) :
-    G E N (w.finishCycleHandler x) := by
+theorem G.finishCycleHandler {E N A : List Nat} {w : World} (h : G E N A w) (x : Nat) :
+    G E N A (w.finishCycleHandler x) := by
   unfold World.finishCycleHandler
   dsimp only
   split
@@ -159,31 +246,61 @@ theorem G.finishCycleHandler {E N : List Nat} {w : World} (h : G E N w) (x : Nat
           · cases hq
           · left; rw [hp]; exact hq
           · exact Or.inr (Or.inr hq)
-        · right
-          intro hacc
-          by_cases hhl : isHandlerLike (w.dev x).kind = true
-          · rw [accB_false_of_output (d := { w.dev x with output := some p, part := none })
-              (p := p) rfl hhl] at hacc
-            cases hacc
-          · have hhl' : isHandlerLike (w.dev x).kind = false := by simpa using hhl
-            rw [accB_nonHL (d := { w.dev x with output := some p, part := none }) hhl'] at hacc
-            rw [accB_nonHL hhl']
-            exact hacc
+        · exact Or.inr (Or.inr (fun n hacc =>
+            accB_le_of_occupied (d := w.dev x) (by rfl) (by rfl) (Or.inr (by rfl)) n hacc))
 
-theorem G.withGenerated {E N : List Nat} {w : World} (h : G E N w) (l : List Nat) :
-    G E N { w with generated := l } :=
+theorem G.withGenerated {E N A : List Nat} {w : World} (h : G E N A w) (l : List Nat) :
+    G E N A { w with generated := l } :=
   h.of_eq rfl rfl rfl rfl rfl
 
-theorem G.genPart {E N : List Nat} {w : World} (h : G E N w) (x : Nat) :
-    G E N (w.genPart x).1 ∧ (w.genPart x).2 < (w.genPart x).1.parts.length ∧
-      (w.genPart x).1.devs = w.devs := by
-  have hb : ((w.dev x).genBatch == 0) = true := by rw [h.s1.genBatch x]; rfl
-  rw [C02V.genPart_leaf w x hb]
-  refine ⟨?_, by simp, rfl⟩
-  exact (h.newPart { quality := (w.dev x).genQuality, value := (w.dev x).genValue } rfl).withGenerated _
+theorem noBatch_dev {w : World} (h : NoBatch w) (x : Nat) :
+    (w.dev x).kind ≠ .batcher ∧ (w.dev x).genBatch = 0 := by
+  rcases dev_mem_or_default w x with hm | hd
+  · exact ⟨(h _ hm).1, (h _ hm).2.1⟩
+  · rw [hd]; exact ⟨by decide, rfl⟩
 
-theorem G.finishCycle {E N : List Nat} {w : World} (h : G E N w) (x : Nat) :
-    G E N (w.finishCycle x) := by
+theorem noBatch_grp {w : World} (h : NoBatch w) (x : Nat) :
+    (w.dev x).kind ≠ .gpath ∧ (w.dev x).kind ≠ .ginput ∧ (w.dev x).kind ≠ .goutput := by
+  rcases dev_mem_or_default w x with hm | hd
+  · exact (h _ hm).2.2
+  · rw [hd]; exact ⟨by decide, by decide, by decide⟩
+
+theorem G.genPart {E N A : List Nat} {w : World} (h : G E N A w) (x : Nat) :
+    G E N A (w.genPart x).1 ∧ (w.genPart x).2 < (w.genPart x).1.parts.length ∧
+      (w.genPart x).1.devs = w.devs := by
+  cases hb : ((w.dev x).genBatch == 0) with
+  | true =>
+    rw [C02V.genPart_leaf w x hb]
+    refine ⟨?_, by simp, rfl⟩
+    exact (h.newPart { quality := (w.dev x).genQuality, value := (w.dev x).genValue }
+      (fun _ => rfl) (fun l hl => by cases hl)).withGenerated _
+  | false =>
+    rw [C02V.genPart_batch w x hb]
+    refine ⟨?_, by simp, rfl⟩
+    have hnb : ¬ NoBatch w := fun hn => by
+      have := (noBatch_dev hn x).2
+      rw [this] at hb; cases hb
+    have h1 := h.appendParts (List.replicate (w.dev x).genBatch.toNat
+        { quality := (w.dev x).genQuality, value := (w.dev x).genValue } ++
+        [{ quality := 0, value := 0, kids := some (List.range' w.parts.length (w.dev x).genBatch.toNat) }])
+      (fun hn => absurd hn hnb) (fun r hr ks hks k hk => by
+        rcases List.mem_append.mp hr with hr | hr
+        · rw [List.eq_of_mem_replicate hr] at hks; cases hks
+        · rw [List.mem_singleton] at hr; subst hr
+          simp only [Option.some.injEq] at hks
+          subst hks
+          rw [List.mem_range'_1] at hk
+          simp only [List.length_append, List.length_replicate, List.length_singleton]
+          omega)
+      (fun r hr => by
+        rcases List.mem_append.mp hr with hr | hr
+        · rw [List.eq_of_mem_replicate hr]
+        · rw [List.mem_singleton] at hr; subst hr; rfl)
+    have := h1.withGenerated (w.generated ++ List.range' w.parts.length (w.dev x).genBatch.toNat)
+    simpa only [List.append_assoc] using this
+
+theorem G.finishCycle {E N A : List Nat} {w : World} (h : G E N A w) (x : Nat) :
+    G E N A (w.finishCycle x) := by
   unfold World.finishCycle
   dsimp only
   split
@@ -206,19 +323,15 @@ theorem G.finishCycle {E N : List Nat} {w : World} (h : G E N w) (x : Nat) :
         · exact h1.valid.dev x q ((heldL_mem _ _).mpr (Or.inl hq))
         · cases hq; exact hl1
         · exact h1.valid.dev x q ((heldL_mem _ _).mpr (Or.inr (Or.inr hq)))
-      · right
-        intro hacc
-        rw [accB_false_of_output (d := { w1.dev x with output := some p })
-          (p := p) rfl
-          (by show isHandlerLike (w1.dev x).kind = true; rw [hd1, hk]; rfl)] at hacc
-        cases hacc
+      · exact Or.inr (Or.inr (fun n hacc =>
+          accB_le_of_occupied (d := w1.dev x) (by rfl) (by rfl) (Or.inr (by rfl)) n hacc))
     · exact h.schedulePass0 x
   · -- sink
     next hk =>
     have h1 := h.finishCycleHandler x
     have hk1 : ((w.finishCycleHandler x).dev x).kind = .sink := by
       rw [kind_of_st (C02V.st_finishCycleHandler w x)]; exact hk
-    have h2 : G E (x :: N) ((w.finishCycleHandler x).modDev x (fun d => { d with output := none })) := by
+    have h2 : G E (x :: N) A ((w.finishCycleHandler x).modDev x (fun d => { d with output := none })) := by
       refine h1.modDev x _ rfl ?_ (fun _ h => h) (fun y hy => List.mem_cons_of_mem _ hy)
         (Or.inl (List.mem_cons_self ..)) (Or.inr ?_)
       · intro q hq
@@ -238,9 +351,9 @@ theorem G.finishCycle {E N : List Nat} {w : World} (h : G E N w) (x : Nat) :
     generalize w.finishCycleHandler x = w1 at h1
     have h2 := h1.setDev_irrel x
       { w1.dev x with timeInUse := (w1.dev x).timeInUse + (w1.now - (w1.dev x).lastUseStart.getD w1.now),
-                      lastUseStart := none } rfl rfl rfl rfl (fun _ => rfl) rfl
+                      lastUseStart := none } rfl rfl (fun _ => rfl) rfl (fun _ => rfl) rfl
     generalize hw2 : w1.setDev x _ = w2 at h2
-    have h3 : G E N (if (w1.dev x).reserved.isSome then
+    have h3 : G E N A (if (w1.dev x).reserved.isSome then
         w2.schedLib w2.now (w1.dev x).aid (.releaseIfIdle x) pRelease else w2) := by
       split
       · exact h2.schedLib _ _ (Action.releaseIfIdle x) _ (fun d hd => Action.noConfusion hd)
@@ -250,14 +363,14 @@ theorem G.finishCycle {E N : List Nat} {w : World} (h : G E N w) (x : Nat) :
     · exact h3
     · apply G.addRec
       refine G.foldl _ (fun w s hw => hw.senseOutput s _) _ ?_
-      exact G.foldl_applyPartCb x _ _ (h1.s1.finPure x) h3
+      exact G.foldl_applyPartCb x _ _ (h1.sc.finPure x) h3
   · exact h.finishCycleHandler x
 
-theorem G.scheduleFinish {E N : List Nat} {w : World} (h : G E N w) (x : Nat) :
-    G E N (w.scheduleFinish x) := by
+theorem G.scheduleFinish {E N A : List Nat} {w : World} (h : G E N A w) (x : Nat) :
+    G E N A (w.scheduleFinish x) := by
   unfold World.scheduleFinish
   dsimp only
-  have h1 := h.setDev_irrel x { w.dev x with offset := 0 } rfl rfl rfl rfl (fun _ => rfl) rfl
+  have h1 := h.setDev_irrel x { w.dev x with offset := 0 } rfl rfl (fun _ => rfl) rfl (fun _ => rfl) rfl
   repeat' split
   all_goals first
     | exact h1.finishCycle x
@@ -269,8 +382,14 @@ theorem kind_lt {w : World} {x : Nat} (hk : (w.dev x).kind ≠ .handler) : x < w
   rw [dev_of_length_le hc] at hk
   exact hk rfl
 
-theorem G.tryMove {E N : List Nat} {w : World} (h : G E N w) (x : Nat) :
-    G E N (w.tryMove x) := by
+/-- What `tryMove` needs of a batcher `x`: it is counted as willing (it has just accepted, or
+notified), and nobody else offers its input part or its batch under construction. -/
+def BOK (E A : List Nat) (w : World) (x : Nat) : Prop :=
+  (w.dev x).kind = .batcher → x ∈ A ∧ ∀ d q, d ∉ x :: E → holdsD (w.dev d) = some q →
+    (w.dev x).part ≠ some q ∧ (w.dev x).inprog ≠ some q
+
+theorem G.tryMove {E N A : List Nat} {w : World} (h : G E N A w) (x : Nat) (hbok : BOK E A w x) :
+    G E N A (w.tryMove x) := by
   unfold World.tryMove
   dsimp only
   split
@@ -285,16 +404,17 @@ theorem G.tryMove {E N : List Nat} {w : World} (h : G E N w) (x : Nat) :
         intro q hq
         refine h.valid.dev x q ?_
         rw [heldL_mem] at hq ⊢
-        rcases hq with hq | hq | ⟨t, hq⟩
+        rcases hq with hq | hq | ⟨t, hq⟩ | hq
         · cases hq
         · exact Or.inr (Or.inl hq)
         · rcases List.mem_append.mp hq with hq | hq
-          · exact Or.inr (Or.inr ⟨t, hq⟩)
+          · exact Or.inr (Or.inr (Or.inl ⟨t, hq⟩))
           · simp only [List.mem_singleton, Prod.mk.injEq] at hq
             left; rw [hp, hq.2]
+        · exact Or.inr (Or.inr (Or.inr hq))
       cases hb : (w.dev x).buf with
       | nil =>
-        have h1 : G (x :: E) (x :: N)
+        have h1 : G (x :: E) (x :: N) A
             (w.setDev x { w.dev x with buf := (w.dev x).buf ++ [(w.now, p)], part := none }) :=
           h.setDev x _ rfl hv (fun y hy => List.mem_cons_of_mem _ hy)
             (fun y hy => List.mem_cons_of_mem _ hy) (Or.inl (List.mem_cons_self ..))
@@ -309,7 +429,7 @@ theorem G.tryMove {E N : List Nat} {w : World} (h : G E N w) (x : Nat) :
         have hnow2 : w2.now = w.now := by rw [← hw2]; exact (step_notify _ x).mono.now
         rw [hbuf2]
         simp only [List.length_singleton, beq_self_eq_true, if_true]
-        refine h2.schedulePass x _ (h.s1.delay x hk) (fun y hy => (List.mem_cons.mp hy).imp id id) ?_
+        refine h2.schedulePass x _ (h.sc.delay x hk) (fun y hy => (List.mem_cons.mp hy).imp id id) ?_
         intro q _
         have hk2 : (w2.dev x).kind = .buffer := by
           rw [core_eq_dev_kind hc2, dev_setDev_same hx]; exact hk
@@ -317,11 +437,11 @@ theorem G.tryMove {E N : List Nat} {w : World} (h : G E N w) (x : Nat) :
           rw [core_eq_dev_delay hc2, dev_setDev_same hx]
         unfold dueD
         rw [hk2, hbuf2, hnow2, hdl]
-        have := h.s1.delay x hk
+        have := h.sc.delay x hk
         dsimp only
         split <;> omega
       | cons b bs =>
-        have h1 : G E (x :: N)
+        have h1 : G E (x :: N) A
             (w.setDev x { w.dev x with buf := (w.dev x).buf ++ [(w.now, p)], part := none }) := by
           refine h.setDev x _ rfl hv (fun _ h => h)
             (fun y hy => List.mem_cons_of_mem _ hy) (Or.inl (List.mem_cons_self ..)) (Or.inr ?_)
@@ -345,26 +465,76 @@ theorem G.tryMove {E N : List Nat} {w : World} (h : G E N w) (x : Nat) :
         exact h2
   · -- batcher
     next hk =>
-    have := h.s1.kindOK x
-    rw [hk] at this; cases this
+    obtain ⟨hxA, hfree⟩ := hbok hk
+    have hx : x < w.devs.length := kind_lt (by rw [hk]; decide)
+    split
+    · exact h
+    · split
+      · exact h
+      · next p hp =>
+        have keyE : G E N A (w.setDev x { w.dev x with part := none }) := by
+          -- an empty batch is dropped
+          refine h.setDev x _ rfl ?_ (fun _ h => h) (fun _ h => h) (Or.inr (Or.inl hxA))
+            (Or.inr (fun q hq => ⟨?_, Int.le_refl _, id⟩))
+          · intro q hq
+            refine h.valid.dev x q ?_
+            rw [heldL_mem] at hq ⊢
+            rcases hq with hq | hq | hq | hq
+            · cases hq
+            · exact Or.inr (Or.inl hq)
+            · exact Or.inr (Or.inr (Or.inl hq))
+            · exact Or.inr (Or.inr (Or.inr hq))
+          · unfold holdsD at hq ⊢
+            simp only [hk] at hq ⊢
+            exact hq
+        have keyL : G E N A
+            (if ((batcherLoop (w.leafCount p + 2) w x).dev x).output.isSome then
+              (batcherLoop (w.leafCount p + 2) w x).schedulePass x 0
+            else batcherLoop (w.leafCount p + 2) w x) := by
+          have hm : G (x :: E) N A w :=
+            h.mono (fun y hy => List.mem_cons_of_mem _ hy) (fun _ h => h) (fun _ h => h)
+          obtain ⟨h1, hb1⟩ := G.batcherLoopG (List.mem_cons_self ..) hxA (w.leafCount p + 2) w hm
+            ⟨hk, hfree⟩
+          split
+          · exact G.schedulePassX h1
+          · next hout =>
+            refine h1.unexempt x (fun y hy => (List.mem_cons.mp hy).imp id id) (fun q hq => ?_)
+            exfalso
+            unfold holdsD at hq
+            rw [hb1.kind] at hq
+            simp only [] at hq
+            rw [hq] at hout
+            exact hout rfl
+        cases hkids : (w.part p).kids with
+        | none => simp only [Bool.false_eq_true, if_false]; exact keyL
+        | some l =>
+          cases l with
+          | nil => simp only [List.isEmpty_nil, if_true]; exact keyE
+          | cons k ks => simp only [List.isEmpty_cons, Bool.false_eq_true, if_false]; exact keyL
   · split
-    · exact (h.setDev_irrel x { w.dev x with lastUseStart := some w.now } rfl rfl rfl rfl
+    · exact (h.setDev_irrel x { w.dev x with lastUseStart := some w.now } rfl rfl (fun _ => rfl) rfl
         (fun _ => rfl) rfl).scheduleFinish x
     · exact h
   · split
     · exact h.scheduleFinish x
     · exact h
-theorem accB_level_le (d : Dev) (n : Nat) :
-    accB { d with level := d.level + n } = true → accB d = true := by
-  unfold accB opn
+theorem accB0_level_le (d : Dev) (n m : Nat) :
+    accB0 m { d with level := d.level + n } = true → accB0 m d = true := by
+  unfold accB0 opn
   cases hk : d.kind <;> simp only [] <;> try exact id
   cases hc : d.cap with
   | none => exact id
   | some c =>
     simp only [Bool.and_eq_true, decide_eq_true_eq]
     intro h
-    exact ⟨⟨⟨⟨by omega, h.1.1.1.2⟩, h.1.1.2⟩, h.1.2⟩, h.2⟩
+    exact ⟨⟨⟨⟨⟨by omega, by omega⟩, h.1.1.1.2⟩, h.1.1.2⟩, h.1.2⟩, h.2⟩
 
+theorem accB_level_le (d : Dev) (n m : Nat) :
+    accB m { d with level := d.level + n } = true → accB m d = true := by
+  unfold accB
+  simp only [Bool.and_eq_true]
+  intro h
+  exact ⟨accB0_level_le d n m h.1, h.2⟩
 /-- the bookkeeping at the beginning of `onReceived` -/
 def recvHeadW (w : World) (x p : Nat) : World :=
   match (w.dev x).kind with
@@ -390,62 +560,199 @@ theorem onReceived_eq (w : World) (x p : Nat) :
   dsimp only
   cases hk : (w.dev x).kind <;> rfl
 
-theorem G.recvHd {E N : List Nat} {w : World} (h : G E N w) (x p : Nat) :
-    G E N (recvHeadW w x p) := by
+theorem G.recvHd {E N A : List Nat} {w : World} (h : G E N A w) (x p : Nat) :
+    G E N A (recvHeadW w x p) := by
   unfold recvHeadW
   split
-  · exact h.setDev_irrel x _ rfl rfl rfl rfl (fun _ => rfl) rfl
+  · exact h.setDev_irrel x _ rfl rfl (fun _ => rfl) rfl (fun _ => rfl) rfl
   · apply G.addRec
     exact h.setDev x _ rfl (fun q hq => h.valid.dev x q hq) (fun _ h => h) (fun _ h => h)
-      (Or.inr (accB_level_le _ _)) (Or.inr (fun q hq => ⟨hq, Int.le_refl _, id⟩))
+      (Or.inr (Or.inr (fun n => accB_level_le _ _ n))) (Or.inr (fun q hq => ⟨hq, Int.le_refl _, id⟩))
   · exact h
 
-theorem G.onReceived {E N : List Nat} {w : World} (h : G E N w) (x p : Nat) :
-    G E N (w.onReceived x p) := by
+/-- a step that leaves the slots of all devices and the kind of `x` alone -/
+structure SlotsEq (x : Nat) (w w' : World) : Prop where
+  other : ∀ d, d ≠ x → holdsD (w'.dev d) = holdsD (w.dev d)
+  kind : (w'.dev x).kind = (w.dev x).kind
+  part : (w'.dev x).part = (w.dev x).part
+  inprog : (w'.dev x).inprog = (w.dev x).inprog
+
+theorem SlotsEq.refl (x : Nat) (w : World) : SlotsEq x w w := ⟨fun _ _ => rfl, rfl, rfl, rfl⟩
+
+theorem SlotsEq.trans {x : Nat} {w w' w'' : World} (h : SlotsEq x w w') (h' : SlotsEq x w' w'') :
+    SlotsEq x w w'' :=
+  ⟨fun d hd => (h'.other d hd).trans (h.other d hd), h'.kind.trans h.kind, h'.part.trans h.part,
+    h'.inprog.trans h.inprog⟩
+
+theorem SlotsEq.of_devs {x : Nat} {w w' : World} (h : w'.devs = w.devs) : SlotsEq x w w' := by
+  have hd : ∀ y, w'.dev y = w.dev y := fun y => dev_congr h y
+  exact ⟨fun d _ => by rw [hd], by rw [hd], by rw [hd], by rw [hd]⟩
+
+theorem SlotsEq.addRec (x : Nat) (w : World) (r : Rec) : SlotsEq x w (w.addRec r) := .of_devs rfl
+
+theorem SlotsEq.setDev {x : Nat} (w : World) (d' : Dev) (hk : d'.kind = (w.dev x).kind)
+    (hp : d'.part = (w.dev x).part) (hi : d'.inprog = (w.dev x).inprog) :
+    SlotsEq x w (w.setDev x d') := by
+  by_cases hx : x < w.devs.length
+  · exact ⟨fun d hd => by rw [dev_setDev_ne (Ne.symm hd)], by rw [dev_setDev_same hx]; exact hk,
+      by rw [dev_setDev_same hx]; exact hp, by rw [dev_setDev_same hx]; exact hi⟩
+  · rw [dev_setDev_out_of_range (Nat.le_of_not_lt hx)]; exact .refl x w
+
+theorem SlotsEq.applyPartCb (x : Nat) (w : World) (p : Nat) (c : PartCb) :
+    SlotsEq x w (w.applyPartCb x p c) :=
+  ⟨fun d hd => by rw [applyPartCb_dev_ne w p c hd],
+    applyPartCb_dev_field Dev.kind (fun _ _ _ => rfl) w x p c x,
+    applyPartCb_dev_field Dev.part (fun _ _ _ => rfl) w x p c x,
+    applyPartCb_dev_field Dev.inprog (fun _ _ _ => rfl) w x p c x⟩
+
+theorem SlotsEq.foldl {α} {x : Nat} (g : World → α → World) (l : List α) (w : World)
+    (h : ∀ w a, SlotsEq x w (g w a)) : SlotsEq x w (l.foldl g w) := by
+  induction l generalizing w with
+  | nil => exact .refl x w
+  | cons a l ih => exact (h w a).trans (ih (g w a))
+
+theorem slotsEq_recvHead (w : World) (x p : Nat) : SlotsEq x w (recvHeadW w x p) := by
+  unfold recvHeadW
+  split
+  · exact .setDev w _ rfl rfl rfl
+  · refine SlotsEq.trans ?_ (SlotsEq.addRec x _ _)
+    exact SlotsEq.setDev w _ rfl rfl rfl
+  · exact .refl x w
+
+theorem BOK.of_slots {E A : List Nat} {w w' : World} {x : Nat} (h : BOK E A w x)
+    (s : SlotsEq x w w') : BOK E A w' x := by
+  intro hk
+  obtain ⟨hA, hf⟩ := h (by rw [← s.kind]; exact hk)
+  refine ⟨hA, fun d q hd hq => ?_⟩
+  have hdx : d ≠ x := fun hc => hd (hc ▸ List.mem_cons_self ..)
+  rw [s.other d hdx] at hq
+  rw [s.part, s.inprog]
+  exact hf d q hd hq
+
+theorem G.onReceived {E N A : List Nat} {w : World} (h : G E N A w) (x p : Nat)
+    (hbok : BOK E A w x) : G E N A (w.onReceived x p) := by
   rw [onReceived_eq]
   dsimp only
   have h1 := h.recvHd x p
-  generalize recvHeadW w x p = w1 at h1 ⊢
+  have s1 := slotsEq_recvHead w x p
+  generalize recvHeadW w x p = w1 at h1 s1 ⊢
   have h2 := h1.addRec (.received x w1.now p (w1.part p).quality (w1.partValue p))
-  generalize w1.addRec _ = w2 at h2 ⊢
-  have h3 := G.foldl_applyPartCb x p _ (h2.s1.recvPure x) h2
+  have s2 : SlotsEq x w (w1.addRec (.received x w1.now p (w1.part p).quality (w1.partValue p))) :=
+    s1.trans (.addRec x _ _)
+  generalize w1.addRec _ = w2 at h2 s2 ⊢
+  have h3 := G.foldl_applyPartCb x p _ (h2.sc.recvPure x) h2
+  have s3 : SlotsEq x w ((w2.dev x).recvCbs.foldl (fun w c => w.applyPartCb x p c) w2) :=
+    s2.trans (SlotsEq.foldl _ _ _ (fun w c => .applyPartCb x w p c))
   split
-  · exact h3.tryMove x
+  · exact h3.tryMove x (hbok.of_slots s3)
   · exact h3
 
-theorem G.withDelivered {E N : List Nat} {w : World} (h : G E N w) (l : List Nat) :
-    G E N { w with delivered := l } :=
+theorem G.withDelivered {E N A : List Nat} {w : World} (h : G E N A w) (l : List Nat) :
+    G E N A { w with delivered := l } :=
   h.of_eq rfl rfl rfl rfl rfl
 
-theorem G.acceptPart {E N : List Nat} {w : World} (h : G E N w) (x p : Nat)
-    (hp : p < w.parts.length) : G E N (w.acceptPart x p) := by
+/-- What `acceptPart x p` needs of a batcher `x`: it is counted as willing, and nobody else offers
+`p` or the batch under construction. -/
+def BOKp (E A : List Nat) (w : World) (x p : Nat) : Prop :=
+  (w.dev x).kind = .batcher → x ∈ A ∧ ∀ d q, d ∉ x :: E → holdsD (w.dev d) = some q →
+    q ≠ p ∧ (w.dev x).inprog ≠ some q
+
+/-- the state in which `onReceived` is called by `acceptPart` -/
+theorem bok_acceptPre {E A : List Nat} {w1 : World} {x p : Nat} (h : BOKp E A w1 x p) :
+    BOK E A (((w1.modDev x (fun d => { d with part := some p })).addHist p x).setWaiting x false
+      false) x := by
+  have hc : ∀ y, ((((w1.modDev x (fun d => { d with part := some p })).addHist p x).setWaiting x
+      false false).dev y).core = ((w1.modDev x (fun d => { d with part := some p })).dev y).core := by
+    intro y
+    rw [core_eq_dev (setWaiting_core _ x false false), dev_addHist]
+  intro hk
+  have hk1 : (w1.dev x).kind = .batcher := by
+    have := congrArg Dev.kind (hc x)
+    have e : ((w1.modDev x (fun d => { d with part := some p })).dev x).kind = (w1.dev x).kind :=
+      modDev_dev_field Dev.kind w1 x _ rfl x
+    rw [← e]; exact this.symm.trans hk
+  obtain ⟨hA, hf⟩ := h hk1
+  have hx : x < w1.devs.length := kind_lt (by rw [hk1]; decide)
+  refine ⟨hA, fun d q hd hq => ?_⟩
+  have hdx : d ≠ x := fun hc' => hd (hc' ▸ List.mem_cons_self ..)
+  have hq1 : holdsD (w1.dev d) = some q := by
+    rw [← holdsD_core, hc d, holdsD_core, dev_modDev_ne (Ne.symm hdx)] at hq
+    exact hq
+  obtain ⟨h1, h2⟩ := hf d q hd hq1
+  have hp' := congrArg Dev.part (hc x)
+  have hi' := congrArg Dev.inprog (hc x)
+  rw [dev_modDev_same hx] at hp' hi'
+  constructor
+  · intro hcq
+    have : (some p : Option Nat) = some q := hp'.symm.trans hcq
+    cases this
+    exact h1 rfl
+  · intro hcq
+    exact h2 (hi'.symm.trans hcq)
+
+theorem G.acceptPart {E N A : List Nat} {w : World} (h : G E N A w) (x p : Nat)
+    (hp : p < w.parts.length) (hbok : BOKp E A w x p) : G E N A (w.acceptPart x p) := by
   unfold World.acceptPart
-  have h1 : G E N (if (w.dev x).kind == .sink then { w with delivered := w.delivered ++ w.leavesOf p } else w) := by
+  have h1 : G E N A (if (w.dev x).kind == .sink then { w with delivered := w.delivered ++ w.leavesOf p } else w) := by
     split
     · exact h.withDelivered _
     · exact h
   have hp1 : p < (if (w.dev x).kind == .sink then { w with delivered := w.delivered ++ w.leavesOf p } else w).parts.length := by
     split <;> exact hp
-  generalize (if (w.dev x).kind == .sink then { w with delivered := w.delivered ++ w.leavesOf p } else w) = w1 at h1 hp1
+  have hb1 : BOKp E A (if (w.dev x).kind == .sink then { w with delivered := w.delivered ++ w.leavesOf p } else w) x p := by
+    split <;> exact hbok
+  generalize (if (w.dev x).kind == .sink then { w with delivered := w.delivered ++ w.leavesOf p } else w) = w1 at h1 hp1 hb1
   dsimp only
-  apply G.onReceived
+  refine G.onReceived ?_ x p (bok_acceptPre hb1)
   apply G.setWaiting
   apply G.addHist
-  refine h1.modDev x _ rfl ?_ (fun _ h => h) (fun _ h => h) (Or.inr ?_)
+  refine h1.modDev x _ rfl ?_ (fun _ h => h) (fun _ h => h)
+    (Or.inr (Or.inr (fun n hacc =>
+      accB_le_of_occupied (d := w1.dev x) (by rfl) (by rfl) (Or.inl (by rfl)) n hacc)))
     (Or.inr (fun q hq => ⟨hq, Int.le_refl _, id⟩))
-  · intro q hq
+  intro q hq
+  rw [heldL_mem] at hq
+  rcases hq with hq | hq | hq
+  · cases hq; exact hp1
+  · exact h1.valid.dev x q ((heldL_mem _ _).mpr (Or.inr (Or.inl hq)))
+  · exact h1.valid.dev x q ((heldL_mem _ _).mpr (Or.inr (Or.inr hq)))
+
+/-- **Accepting discharges**: a handler-like device that takes a part refuses from then on, so a
+notification that was pending for it (after it acquired its resources) is no longer needed. -/
+theorem G.acceptPartD {E N A : List Nat} {w : World} {x : Nat} (h : G E (x :: N) A w) (p : Nat)
+    (hp : p < w.parts.length) (hhl : isHandlerLike (w.dev x).kind = true)
+    (hx0 : x < w.devs.length) (hnb : (w.dev x).kind ≠ .batcher) (hxA : x ∉ A) :
+    G E N A (w.acceptPart x p) := by
+  unfold World.acceptPart
+  have h1 : G E (x :: N) A (if (w.dev x).kind == .sink then { w with delivered := w.delivered ++ w.leavesOf p } else w) := by
+    split
+    · exact h.withDelivered _
+    · exact h
+  have hp1 : p < (if (w.dev x).kind == .sink then { w with delivered := w.delivered ++ w.leavesOf p } else w).parts.length := by
+    split <;> exact hp
+  have hhl1 : isHandlerLike ((if (w.dev x).kind == .sink then { w with delivered := w.delivered ++ w.leavesOf p } else w).dev x).kind = true := by
+    split <;> exact hhl
+  have hx : x < (if (w.dev x).kind == .sink then { w with delivered := w.delivered ++ w.leavesOf p } else w).devs.length := by
+    split <;> exact hx0
+  have hnb1 : ((if (w.dev x).kind == .sink then { w with delivered := w.delivered ++ w.leavesOf p } else w).dev x).kind ≠ .batcher := by
+    split <;> exact hnb
+  generalize (if (w.dev x).kind == .sink then { w with delivered := w.delivered ++ w.leavesOf p } else w) = w1 at h1 hp1 hhl1 hx hnb1
+  dsimp only
+  refine G.onReceived ?_ x p (bok_acceptPre (fun hk => absurd hk hnb1))
+  apply G.setWaiting
+  apply G.addHist
+  have h2 : G E (x :: N) A (w1.modDev x (fun d => { d with part := some p })) := by
+    refine h1.modDev x _ rfl ?_ (fun _ h => h) (fun _ h => h) (Or.inl (List.mem_cons_self ..))
+      (Or.inr (fun q hq => ⟨hq, Int.le_refl _, id⟩))
+    intro q hq
     rw [heldL_mem] at hq
     rcases hq with hq | hq | hq
     · cases hq; exact hp1
     · exact h1.valid.dev x q ((heldL_mem _ _).mpr (Or.inr (Or.inl hq)))
     · exact h1.valid.dev x q ((heldL_mem _ _).mpr (Or.inr (Or.inr hq)))
-  · intro hacc
-    by_cases hhl : isHandlerLike (w1.dev x).kind = true
-    · rw [accB_false_of_part (d := { w1.dev x with part := some p }) (p := p) rfl hhl] at hacc
-      cases hacc
-    · have hhl' : isHandlerLike (w1.dev x).kind = false := by simpa using hhl
-      rw [accB_nonHL (d := { w1.dev x with part := some p }) hhl'] at hacc
-      rw [accB_nonHL hhl']
-      exact hacc
+  refine h2.discharge x (fun y hy => (List.mem_cons.mp hy).imp id id) (fun n => ?_) hxA
+  rw [dev_modDev_same hx]
+  exact accB_false_of_part (d := { w1.dev x with part := some p }) (p := p) rfl hhl1 n
+
 end C03W
 end SimProc
